@@ -90,6 +90,7 @@ pub fn replay(ctx: &mut Ctx, case: &Case) -> Result<(), String> {
         ("C16", "cap") => replay_as::<c16::Cap>(ctx, case),
         ("C17", "tile") => replay_as::<c17::Tile>(ctx, case),
         ("C17", "tileio") => replay_as::<c17::TileIo>(ctx, case),
+        ("C17", "hugenoise") => replay_as::<c17::HugeNoise>(ctx, case),
         ("C18", "bufhist") => replay_as::<c18::Hist>(ctx, case),
         (p, k) => Err(format!("no replay handler for property {} case kind '{}'", p, k)),
     }
